@@ -62,7 +62,7 @@ def run_variant(v):
         for prop in v['checks']:
             p = subprocess.run([PY, '-m', 'checks.' + prop.lower()], cwd=VERIF, env=env,
                                capture_output=True, text=True, timeout=600)
-            results.append((prop, p.returncode, p.stdout[-3000:] + p.stderr[-2000:]))
+            results.append((prop, p.returncode, p.stdout + p.stderr[-2000:]))
         return v, results
     finally:
         shutil.rmtree(tmp, ignore_errors=True)
